@@ -554,6 +554,13 @@ def check_packets(t: Tally):
     beyond = CCSDSPacket(raw_data=pal[0])
     beyond.raw_data.pos = 8 * len(pal[0]) + 19
     pkts.append(beyond)
+    # items whose names are words the packet class uses itself (constructor arguments, attribute and method names, dict method names):
+    # parameter names come from the definition and are just keys
+    odd = CCSDSPacket(raw_data=pal[1])
+    from space_packet_parser import common as _c
+    for nm in ("raw_data", "self", "args", "kwargs", "header", "user_data", "items", "keys", "__dict__", "", "0", "pos"):
+        odd[nm] = _c.IntParameter(len(nm), 7)
+    pkts.append(odd)
     copies = [("copy", copy.copy), ("deepcopy", copy.deepcopy)] + [(f"pickle{pr}", lambda x, pr=pr: pickle.loads(pickle.dumps(x, protocol=pr)))
                                                                     for pr in range(0, pickle.HIGHEST_PROTOCOL + 1)]
     # the raw data objects on their own, too
